@@ -507,6 +507,18 @@ func runC(t *testing.T, sc Scenario) *core.Result {
 					req.Header["Authorization"] = base.HeaderValue{hdr}
 				} else {
 					what = "no credentials"
+					switch st.Useless {
+					case "bearer":
+						req.Header["Authorization"] = base.HeaderValue{"Bearer dGhpcyBpcyBub3QgcnRzcA=="}
+					case "empty-basic":
+						req.Header["Authorization"] = base.HeaderValue{"Basic Og=="}
+					case "empty-digest":
+						req.Header["Authorization"] = base.HeaderValue{`Digest username="", realm="x", nonce="y", uri="` + wire + `", response="00000000000000000000000000000000"`}
+					}
+					if st.Useless != "" {
+						what = "no usable credentials (" + st.Useless + ")"
+						w.Probe("useless_authorization_header")
+					}
 				}
 				_, nBefore := lastAuth()
 				if _, err := c.Send(req); err != nil {
@@ -553,6 +565,9 @@ func runC(t *testing.T, sc Scenario) *core.Result {
 					}
 					time.Sleep(settle)
 					if serverClosed(port) {
+						if st.Useless != "" {
+							return // challenged as required; the fate of the connection is not asserted for such headers
+						}
 						w.Fail("c10/keep challenge", "%s: the server ended the connection after challenging a request without credentials", label)
 						return
 					}
